@@ -21,14 +21,14 @@ import (
 //	chain <0|1>
 //	timeout                       wait for the reaper's real 10 s timer
 type lifeScen struct {
-	created  time.Time
-	casts    int
-	rejected bool
-	timedOut bool
-	gi       *model.GroupInfo
-	overStored bool   // an over-long signer id sits among the messages round0 stored
-	pending  []string // id hex of honest senders whose messages sit in Processor.futureMessages[hash]
-	npending int
+	created    time.Time
+	casts      int
+	rejected   bool
+	timedOut   bool
+	gi         *model.GroupInfo
+	overStored bool     // an over-long signer id sits among the messages round0 stored
+	pending    []string // id hex of honest senders whose messages sit in Processor.futureMessages[hash]
+	npending   int
 }
 
 func (r *runner) lifeSetup(sc script) *scen {
